@@ -896,7 +896,11 @@ def errors(source, model, wcshelper):
     theta = model[prefix + 'theta'].value
     err_theta = model[prefix + 'theta'].stderr
 
-    source.err_peak_flux = err_amp
+    # a singular covariance matrix gives nan/inf errors, report these as -1
+    if err_amp is not None and np.isfinite(err_amp):
+        source.err_peak_flux = err_amp
+    else:
+        source.err_peak_flux = ERR_MASK
     pix_errs = [err_xo, err_yo, err_sx, err_sy, err_theta]
 
     log.debug("Pix errs: {0}".format(pix_errs))
@@ -918,6 +922,9 @@ def errors(source, model, wcshelper):
         offset = wcshelper.pix2sky([xo + err_xo, yo + err_yo])
         source.err_ra = gcd(ref[0], ref[1], offset[0], ref[1])
         source.err_dec = gcd(ref[0], ref[1], ref[0], offset[1])
+        # huge pixel errors (singular fits) can land off the sky
+        if not all(np.isfinite([source.err_ra, source.err_dec])):
+            source.err_ra = source.err_dec = ERR_MASK
     else:
         source.err_ra = source.err_dec = -1
 
